@@ -13,17 +13,18 @@ for D in "${ARGS[@]}"; do
   echo "base commit: $(git rev-parse --short HEAD)" >> "$OUT"
   if [ -f "$D/demo.rs" ]; then
     mkdir -p tests && cp "$D/demo.rs" tests/seed_demo.rs
-    r=$(cargo test --offline --test seed_demo 2>&1 | grep -E '^test result|error(\[|:)' | head -3 | tr '\n' ' ')
+    r=$( (ulimit -v 8000000; timeout -k 5 600 cargo test --offline --test seed_demo 2>&1) | grep -E '^test result|error(\[|:)' | head -3 | tr '\n' ' ')
     echo "demo WITHOUT the change: $r" >> "$OUT"
   fi
   git apply "$D/patch.diff" || { echo "patch does not apply" >> "$OUT"; continue; }
   b=$(cargo build --offline 2>&1 | tail -1); echo "build with the change: $b" >> "$OUT"
   if [ -f "$D/demo.rs" ]; then
-    r=$(cargo test --offline --test seed_demo 2>&1 | grep -E '^test result|error(\[|:)' | head -3 | tr '\n' ' ')
+    r=$( (ulimit -v 8000000; timeout -k 5 600 cargo test --offline --test seed_demo 2>&1) | grep -E '^test result|error(\[|:)' | head -3 | tr '\n' ' ')
     echo "demo WITH the change: $r" >> "$OUT"
     rm -rf tests
   fi
-  r=$(cargo test --lib --offline 2>&1 | grep -E '^test result' | head -2 | tr '\n' ' ')
+  r=$( (ulimit -v 8000000; timeout -k 5 1200 cargo test --lib --offline 2>&1) | grep -E '^test result|timed out|Killed|memory allocation' | head -2 | tr '\n' ' ')
+  [ -z "$r" ] && r="no result within 20 min / 8 GB (a test does not terminate with this change)"
   echo "library suite WITH the change (cargo test --lib --offline): $r" >> "$OUT"
   git checkout -q -- . ; rm -rf tests
   echo "== $D"; cat "$OUT"
